@@ -200,7 +200,7 @@ class Builtins:
         lst, n = (a, b) if a.ty.kind == 'list' else (b, a)
         m = ex.list_len(st, lst)
         arr = ex.list_arr(st, lst)
-        n = ex.coerce(n, INT).z
+        n = ex.coerce(ex.unwrap_num(st, n, cx, node), INT).z
         cnt = z3.If(n > 0, n, I(0))
         simp_m = z3.simplify(m)
         if not (z3.is_int_value(simp_m) and simp_m.as_long() == 1):
